@@ -264,7 +264,10 @@ def parse_vtt_pct(value: str):
   """Parse a WebVTT precentage value"""
   m = _VTT_PCT_RE.fullmatch(value)
   if m:
-    return round(float(m.group(1)))
+    pct = float(m.group(1))
+    # a percentage is between 0 and 100
+    if pct <= 100:
+      return round(pct)
   return None
 
 # integer has at most 20 digits
